@@ -56,6 +56,7 @@ func c06Case(c *rep.Ctx, r c06Replay) {
 	}
 	before := fsx.Snapshot(j.Root)
 	var err error
+	afterCall := func() {}
 	opts := []gtree.Option{gtree.WithTargetDir(target), gtree.WithFileExtensions(r.Exts)}
 	switch r.Target {
 	case "trailing-slash":
@@ -65,6 +66,12 @@ func c06Case(c *rep.Ctx, r c06Replay) {
 		os.Chdir(filepath.Dir(target))
 		defer os.Chdir(wd)
 		opts[0] = gtree.WithTargetDir("./" + filepath.Base(target) + "/.")
+	case "symlink":
+		// the target is given by a symbolic link to it: everything appears in the directory the link points to
+		link := filepath.Join(j.Root, "link-to-target")
+		os.Symlink(target, link)
+		afterCall = func() { os.Remove(link) }
+		opts[0] = gtree.WithTargetDir(link)
 	case "given-twice":
 		// the later option counts
 		opts = []gtree.Option{gtree.WithTargetDir(""), gtree.WithTargetDir(filepath.Dir(target)), nil, gtree.WithFileExtensions(r.Exts), gtree.WithTargetDir(target)}
@@ -102,6 +109,7 @@ func c06Case(c *rep.Ctx, r c06Replay) {
 			err = gtree.MkdirFromMarkdown(strings.NewReader(enum.Spell(r.Depth, r.Names, enum.Canonical)), opts...)
 		}
 	})
+	afterCall()
 	after := fsx.Snapshot(j.Root)
 	c.Eval()
 	c.Trans(len(plan))
@@ -246,7 +254,7 @@ func init() {
 						b.Target = "missing"
 						c06Case(c, b)
 						if n <= 3 {
-							for _, tg := range []string{"cwd-empty-option", "cwd-no-option", "trailing-slash", "relative", "given-twice", "cwd-given-last"} {
+							for _, tg := range []string{"cwd-empty-option", "cwd-no-option", "trailing-slash", "relative", "given-twice", "cwd-given-last", "symlink"} {
 								b := base
 								b.Target = tg
 								c06Case(c, b)
@@ -261,7 +269,10 @@ func init() {
 						b.Pre = map[string]byte{"unrelated/keep": 'f', "zzz": 'd'}
 						c06Case(c, b)
 						for i := range roots {
-							for _, kind := range []byte{'d', 'f'} {
+							for _, kind := range []byte{'d', 'f', 'l'} {
+								if kind == 'l' && n > 3 {
+									continue // a root that exists as a symbolic link to a directory
+								}
 								b := base
 								b.Pre = map[string]byte{roots[i]: kind, "unrelated": 'd'}
 								c.Nontrivial()
@@ -313,6 +324,29 @@ func init() {
 				// the last root exists already: nothing at all may be created
 				c06Case(c, c06Replay{Kind: "c06", Depth: dr, Names: nr, Exts: ex, Route: "md", Target: "empty", Pre: map[string]byte{fmt.Sprintf("root%02d", size-1): 'd'}})
 			}
+		}
+		// names with multi-byte runes, combining marks, blanks and a 255-byte name (the longest a directory entry may have)
+		uni := []string{"é日本.go", "e\u0301 x", "a", strings.Repeat("長", 85)}
+		for n := 1; n <= 3 && !c.Expired(); n++ {
+			enum.DepthSeqs(n, func(d0 []int) {
+				d := append([]int{}, d0...)
+				enum.Tuples(n, len(uni), func(t []int) {
+					names := enum.Pick(uni, t)
+					f := enum.Build(d, names)
+					if !distinctRoots(f) || !c.Take() || c.Expired() {
+						return
+					}
+					c.StateN(1)
+					c.Inc("unicode_name_forests")
+					for _, ex := range [][]string{nil, {".go"}, {"長"}} {
+						c06Case(c, c06Replay{Kind: "c06", Depth: d, Names: names, Exts: ex, Route: "md", Target: "empty"})
+						if len(f) == 1 {
+							c06Case(c, c06Replay{Kind: "c06", Depth: d, Names: names, Exts: ex, Route: "root", Target: "missing"})
+						}
+					}
+					c06Case(c, c06Replay{Kind: "c06", Depth: d, Names: names, Exts: []string{".go"}, Route: "md", Target: "empty", Pre: map[string]byte{names[0]: 'd'}})
+				})
+			})
 		}
 		// many roots (thresholds in the up-front existence check): R roots, exactly one of them exists already, at the
 		// first, a middle, and each of the last 12 positions
